@@ -254,8 +254,13 @@ def gen_case(rng, tier, index):
     if index == 0:
         # dedicated input of the known finding json-adjacent-surrogates-merge
         return {"kind": "roundtrip", "ops": [["J1", ["\ud800\udfff", None]]]}
+    if index == 6:
+        # one record file of more than a mebibyte (32000 short records): larger than any block a reader may work in
+        return {"kind": "file", "cls": "C1", "records": [["C1", [i, float(i % 97), f"r{i}"]] for i in range(32000)], "ops": [],
+                "reads": rng.randrange(1 << 30), "final_nl": True, "big": True}
     if index % 2 == 0:
-        return {"kind": "roundtrip", "ops": [gen_record(rng, rng.choice(names)) for _ in range(40)]}
+        return {"kind": "roundtrip", "ops": [gen_record(rng, rng.choice(names)) for _ in range(40)],
+                "thread": index % 8 == 4}
     cname = names[(index // 2) % len(names)]
     recs = [gen_record(rng, cname, True) for _ in range(rng.choice([0, 1, 2, 3, 5, 8]))]
     ops = []
@@ -323,9 +328,31 @@ def check_roundtrip(spec, res):
 
 
 def run_case(case, res):
-    with instr.budget(20_000_000):
+    with instr.budget(20_000_000 if not case.get("big") else 200_000_000):
         try:
-            if case["kind"] == "roundtrip":
+            if case["kind"] == "roundtrip" and case.get("thread"):
+                # the records are saved and loaded from two threads, one after the other (never at the same time)
+                import threading
+                box = []
+
+                def work(part):
+                    try:
+                        for spec in part:
+                            check_roundtrip(spec, res)
+                    except BaseException as e:
+                        box.append(e)
+                half = len(case["ops"]) // 2
+                for part in (case["ops"][:half], case["ops"][half:]):
+                    t = threading.Thread(target=work, args=(part,), name="vf:saver")
+                    t.start()
+                    t.join()
+                    if box:
+                        raise box[0]
+                    work(part[:3])          # and again from the main thread
+                    if box:
+                        raise box[0]
+                res.count("roundtrip_cases_split_over_threads")
+            elif case["kind"] == "roundtrip":
                 for spec in case["ops"]:
                     check_roundtrip(spec, res)
             else:
@@ -347,7 +374,10 @@ def run_file_case(case, res):
     d = scratch()
     path = os.path.join(d, "records.txt")
     recs = [mk(s) for s in case["records"]]
-    lines = [check_roundtrip(s, res) for s in case["records"]]
+    if case.get("big"):
+        lines = [r.save().rstrip("\r\n") for r in recs]
+    else:
+        lines = [check_roundtrip(s, res) for s in case["records"]]
     with open(path, "w", encoding="utf-8", newline="") as f:
         if case.get("final_nl", True):
             for l in lines:
@@ -412,6 +442,23 @@ def run_file_case(case, res):
             res.evaluations += 1
 
     variants = ["RecordFile", "MemoryMappedRecordFile", "MutableRecordFile", "MutableMemoryMappedRecordFile"]
+    if case.get("big"):
+        for vi, v in enumerate(variants):
+            with getattr(wf, v)(path, R) as obj:
+                if len(obj) != n:
+                    fail("file-len", f"{v}: len -> {len(obj)}, {n} records were written ({os.path.getsize(path)} bytes)")
+                for i in (0, 1, n // 2, 29999, n - 2, n - 1, -1):
+                    g = outcome(lambda: obj[i])
+                    if g != ("ok", recs[i]):
+                        fail("file-read", f"{v}: f[{i}] of {n} records -> {_short(g)}, expected {_short(recs[i])}")
+                if vi == 0:
+                    g = outcome(lambda: list(obj))
+                    if g != ("ok", recs):
+                        fail("file-read", f"{v}: iteration over {n} records differs from what was written")
+            res.evaluations += 8
+        res.count("record_files_of_more_than_a_mebibyte")
+        res.seen(("bigfile", n))
+        return
     for v in variants:
         if n == 0 and "MemoryMapped" in v:
             continue
